@@ -233,6 +233,17 @@ def _check(prop, tier, seed, replay, t0, workdir, known, violations, broken):
         broken.append("forbidden constructs: " + "; ".join(forbidden[:5]))
     for d in dirty:
         broken.append("assumptions not clean: " + d)
+    # thorough tier: the property's statement modules and everything they depend on are
+    # re-checked by the independent checker coqchk, which must report no axioms and no
+    # relaxed kernel checks
+    coqchk_note = None
+    if tier == "thorough" and ok_make and ok_prop and not forbidden:
+        okc, note = vlib.coqchk(pfiles)
+        coqchk_note = note
+        if not okc:
+            broken.append("coqchk: " + note[:400])
+        else:
+            vlib.log("[%s] coqchk: %s" % (prop.id, note))
     obligations = len(thms)
     if obligations == 0:
         broken.append("no Theorem found in " + ",".join(pfiles))
@@ -380,6 +391,7 @@ def _check(prop, tier, seed, replay, t0, workdir, known, violations, broken):
             rule=prop.rule, samples=totals["samples"], class_distribution=totals["classes"],
             stats=totals["stats"], searched_after_break=searched,
             generated_functions=list(prop.generated_fns),
+            coqchk=coqchk_note,
             repo=vlib.REPO,
         ))
     vlib.write_evidence(pid, ev)
